@@ -83,6 +83,175 @@ def strings(body):
 
 def lean_bool(b): return "true" if b else "false"
 
+# error variants the outer layer of process_message can return or record, in the order of Model.Wrap.ErrKind
+WRAP_ERRS = ["UnexpectedEvent", "InvalidTimestamp", "MissingGroupIdTag", "MultipleGroupIdTags", "InvalidGroupIdFormat",
+             "GroupNotFound", "Message", "Group"]
+PM_STATES = ["Created", "Processed", "ProcessedCommit", "Failed", "EpochInvalidated", "Retryable"]
+
+def nostr_src(rel):
+    """a source file of the `nostr` crate version pinned by /repo's Cargo.lock (vendored registry copy)"""
+    lock = read("Cargo.lock")
+    m = re.search(r'name = "nostr"\s*\nversion = "([^"]+)"', lock)
+    if not m:
+        raise Missing("nostr:version-in-Cargo.lock")
+    home = os.environ.get("CARGO_HOME", os.path.expanduser("~/.cargo"))
+    base = os.path.join(home, "registry", "src")
+    try:
+        for d in sorted(os.listdir(base)):
+            p = os.path.join(base, d, "nostr-" + m.group(1), "src", rel)
+            if os.path.exists(p):
+                return open(p, encoding="utf-8").read()
+    except OSError:
+        pass
+    raise Missing(f"nostr:{m.group(1)}:src/{rel}")
+
+def wrap_facts(facts, nat, boolean, strlist):
+    """the outer layer of process_message: validation.rs, decryption.rs, error_handling.rs, process.rs, lib.rs
+    (MdkConfig::default) and the NIP-44 v2 payload checks of the pinned nostr crate"""
+    mod_rs = strip_comments(non_test(read("crates/mdk-core/src/messages/mod.rs")))
+    nat("epochLookback", const_usize(mod_rs, "DEFAULT_EPOCH_LOOKBACK", "const:DEFAULT_EPOCH_LOOKBACK"), "messages/mod.rs DEFAULT_EPOCH_LOOKBACK")
+    dec = strip_comments(non_test(read("crates/mdk-core/src/messages/decryption.rs")))
+    recent = fn_body(dec, "try_decrypt_with_recent_epochs", "fn:try_decrypt_with_recent_epochs")
+    past = fn_body(dec, "try_decrypt_with_past_epochs", "fn:try_decrypt_with_past_epochs")
+    boolean("lookbackAsModelled",
+            0 < recent.find("self.exporter_secret(") < recent.find("decrypt_with_exporter_secret(") < recent.find("try_decrypt_with_past_epochs(")
+            and "DEFAULT_EPOCH_LOOKBACK" in recent
+            and bool(re.search(r"current_epoch\s*==\s*0\s*\|\|\s*max_epoch_lookback\s*==\s*0", past))
+            and bool(re.search(r"start_epoch\s*:\s*u64\s*=\s*current_epoch\.saturating_sub\(1\)", past))
+            and bool(re.search(r"end_epoch\s*:\s*u64\s*=\s*start_epoch\.saturating_sub\(\s*max_epoch_lookback\.saturating_sub\(1\)\s*\)", past))
+            and bool(re.search(r"\(end_epoch\s*\.\.=\s*start_epoch\)\.rev\(\)", past))
+            and "get_group_exporter_secret" in past,
+            "decryption.rs: current exporter secret (exported and stored on demand) first, then the STORED secrets of epochs cur-1 down to cur-LOOKBACK (not below 0)")
+    dm = fn_body(dec, "decrypt_message", "fn:decrypt_message")
+    boolean("decryptStepsAsModelled",
+            0 < dm.find("find_group_by_nostr_group_id") < dm.find("load_mls_group") < dm.find("try_decrypt_with_recent_epochs")
+            and dm.count("Error::GroupNotFound") == 2,
+            "decryption.rs decrypt_message: group by nostr group id (else GroupNotFound), MLS group loaded (else GroupNotFound), then the outer decryption")
+    lib = strip_comments(non_test(read("crates/mdk-core/src/lib.rs")))
+    m = re.search(r"impl\s+Default\s+for\s+MdkConfig\s*\{(.*?)\n\}", lib, re.S)
+    if not m:
+        raise Missing("lib:MdkConfig::default")
+    for lean, field in [("defaultMaxEventAgeSecs", "max_event_age_secs"), ("defaultMaxFutureSkewSecs", "max_future_skew_secs")]:
+        f = re.search(r"\b" + field + r"\s*:\s*([0-9_]+)\s*,", m.group(1))
+        if not f:
+            raise Missing("lib:MdkConfig::default:" + field)
+        nat(lean, int(f.group(1).replace("_", "")), f"mdk-core lib.rs MdkConfig::default().{field}")
+    val = strip_comments(non_test(read("crates/mdk-core/src/messages/validation.rs")))
+    ve = fn_body(val, "validate_event", "fn:validate_event")
+    if not re.search(r"event\.kind\s*!=\s*Kind::MlsGroupMessage", ve):
+        raise Missing("wrap:kind-check")
+    km = re.search(r"\bMlsGroupMessage\s*=>\s*(\d+)\s*,", nostr_src("event/kind.rs"))
+    if not km:
+        raise Missing("nostr:Kind::MlsGroupMessage")
+    nat("kindMlsGroupMessage", int(km.group(1)), "nostr Kind::MlsGroupMessage, the only kind validate_event lets through")
+    boolean("validateEventOrder", 0 < ve.find("Kind::MlsGroupMessage") < ve.find("validate_created_at"),
+            "validation.rs validate_event: kind first, then the created_at window")
+    vc = fn_body(val, "validate_created_at", "fn:validate_created_at")
+    boolean("createdAtWindowAsModelled",
+            bool(re.search(r"event\.created_at\.as_secs\(\)\s*>\s*now\s*\.as_secs\(\)\s*\.saturating_add\(\s*self\.config\.max_future_skew_secs\s*\)", vc))
+            and bool(re.search(r"min_timestamp\s*=\s*now\.as_secs\(\)\.saturating_sub\(\s*self\.config\.max_event_age_secs\s*\)", vc))
+            and bool(re.search(r"event\.created_at\.as_secs\(\)\s*<\s*min_timestamp", vc))
+            and vc.count("Error::InvalidTimestamp") == 2 and vc.count("Timestamp::now()") == 1,
+            "validation.rs validate_created_at: refused iff created_at > now ⊕ skew (saturating) or created_at < now ⊖ max_age (saturating); one clock read")
+    ex = fn_body(val, "extract_nostr_group_id", "fn:extract_nostr_group_id")
+    hl = re.search(r"group_id_hex\.len\(\)\s*!=\s*(\d+)", ex)
+    if not hl:
+        raise Missing("wrap:h-tag-length-check")
+    nat("hTagHexLen", int(hl.group(1)), "validation.rs extract_nostr_group_id: required byte length of the h tag value")
+    boolean("hTagShapeAsModelled",
+            bool(re.search(r"filter\(\s*\|tag\|\s*tag\.kind\(\)\s*==\s*TagKind::h\(\)\s*\)", ex))
+            and 0 < ex.find("h_tags.is_empty()") < ex.find("MissingGroupIdTag") < ex.find("h_tags.len() > 1") < ex.find("MultipleGroupIdTags")
+            < ex.find(".content()") < ex.find("group_id_hex.len()") < ex.find("hex::decode(group_id_hex)")
+            and ex.count("InvalidGroupIdFormat") == 4,
+            "validation.rs extract_nostr_group_id: tags of kind h — none → MissingGroupIdTag, several → MultipleGroupIdTags, then value present, length, hex::decode → InvalidGroupIdFormat")
+    proc = strip_comments(non_test(read("crates/mdk-core/src/messages/process.rs")))
+    pm = fn_body(proc, "process_message", "fn:process_message")
+    marks = [pm.find("find_processed_message_by_event_id"), pm.find(".validate_event(event)"), pm.find("self.extract_nostr_group_id(event)"),
+             pm.find("self.decrypt_message(nostr_group_id, event)"), pm.find("self.dispatch_by_content_type(")]
+    boolean("processStepOrder", all(x > 0 for x in marks) and marks == sorted(marks),
+            "process.rs process_message: dedup lookup, validate_event, extract_nostr_group_id, decrypt_message, dispatch — in this order")
+    blocked = sorted(PM_STATES.index(s) for s in PM_STATES
+                     if re.search(r"let\s+\w+\s*=\s*processed\.state\s*==\s*message_types::ProcessedMessageState::" + s + r"\s*;", pm))
+    if not blocked or not re.search(r"if\s+is_failed\s*\|\|\s*is_epoch_invalidated", pm):
+        raise Missing("wrap:dedup-blocked-states")
+    facts["dedupBlockedStates"] = ("List Nat", "[" + ", ".join(map(str, blocked)) + "]",
+                                   "process.rs step 0: record states that block re-processing (0 created 1 processed 2 processed_commit 3 failed 4 epoch_invalidated 5 retryable)")
+    boolean("dedupResultAsModelled",
+            0 < pm.find("extract_mls_group_id_from_event(event)") < pm.find("MessageProcessingResult::Unprocessable { mls_group_id }") < pm.find("MessageProcessingResult::PreviouslyFailed")
+            < pm.find(".validate_event(event)"),
+            "process.rs step 0: a blocked event returns Unprocessable{group} when its h tag names a stored group, PreviouslyFailed otherwise")
+    boolean("earlyFailuresRecorded",
+            len(re.findall(r"self\.record_failure\(\s*event\.id\s*,\s*&e\s*,\s*None\s*,\s*None\s*\)", pm)) == 1
+            and len(re.findall(r"self\.record_failure\(\s*event\.id\s*,\s*&e\s*,\s*mls_group_id\.as_ref\(\)\s*,\s*None\s*\)", pm)) == 1,
+            "process.rs: a validation failure is recorded without group and epoch, a decryption failure with the group found by the h tag and without epoch")
+    eh = strip_comments(non_test(read("crates/mdk-core/src/messages/error_handling.rs")))
+    rf = fn_body(eh, "record_failure", "fn:record_failure")
+    boolean("recordFailureKeepsContext",
+            bool(re.search(r"message_event_id\s*=\s*existing_record\.as_ref\(\)\.and_then\(\|r\|\s*r\.message_event_id\)", rf))
+            and bool(re.search(r"epoch\s*=\s*epoch\.or_else\(", rf)) and bool(re.search(r"\.or_else\(\|\|\s*existing_record\.and_then\(\|r\|\s*r\.mls_group_id\)\)", rf))
+            and "ProcessedMessageState::Failed" in rf and "Some(sanitized_reason.to_string())" in rf,
+            "error_handling.rs record_failure: state Failed, sanitised reason; message id kept, epoch / group fall back to the existing record")
+    fu = fn_body(eh, "fail_unprocessable", "fn:fail_unprocessable")
+    boolean("failUnprocessableAsModelled", "Some(&group.mls_group_id)" in fu and "Some(group.epoch)" in fu and "MessageProcessingResult::Unprocessable" in fu,
+            "error_handling.rs fail_unprocessable: record_failure with the group and the stored record's epoch, result Unprocessable")
+    sz = fn_body(eh, "sanitize_error_reason", "fn:sanitize_error_reason")
+    arms = re.findall(r"Error::(\w+)\s*(?:\{[^}]*\}|\([^)]*\))?\s*=>\s*\"([^\"]+)\"", sz)
+    dflt = re.search(r"\b_\s*=>\s*\"([^\"]+)\"", sz)
+    if not arms or not dflt:
+        raise Missing("wrap:sanitize_error_reason")
+    reasons = []
+    for _, r in arms + [("_", dflt.group(1))]:
+        if r not in reasons:
+            reasons.append(r)
+    strlist("sanitizeReasons", reasons, "error_handling.rs sanitize_error_reason: every reason string it can return (the last one is the default arm)")
+    table = dict(arms)
+    facts["wrapErrReason"] = ("List Nat", "[" + ", ".join(str(reasons.index(table.get(v, dflt.group(1)))) for v in WRAP_ERRS) + "]",
+                              "index into sanitizeReasons for " + ", ".join(WRAP_ERRS))
+    # NIP-44 v2 payload checks of the pinned nostr crate
+    n44 = strip_comments(non_test(nostr_src("nips/nip44/mod.rs")))
+    v2 = strip_comments(non_test(nostr_src("nips/nip44/v2.rs")))
+    vm = re.search(r"\bV2\s*=\s*0x([0-9a-fA-F]+)\s*,", n44)
+    d2b = fn_body(n44, "decrypt_to_bytes", "nostr:nip44:decrypt_to_bytes")
+    if not vm or not (0 < d2b.find("STANDARD.decode(payload)") < d2b.find("payload.first()") < d2b.find("Version::try_from(version)")):
+        raise Missing("nostr:nip44:version")
+    nat("nip44Version", int(vm.group(1), 16), "nostr nips/nip44/mod.rs: the only accepted first payload byte (after base64 decoding; an empty payload is refused)")
+    body = fn_body(v2, "decrypt_to_bytes", "nostr:nip44:v2:decrypt_to_bytes")
+    g1 = re.search(r"\.get\(1\.\.(\d+)\)", body)
+    g2 = re.search(r"\.get\((\d+)\.\.len\s*-\s*(\d+)\)", body)
+    g3 = re.search(r"\.get\(len\s*-\s*(\d+)\.\.\)", body)
+    if not (g1 and g2 and g3) or g1.group(1) != g2.group(1) or g2.group(2) != g3.group(1):
+        raise Missing("nostr:nip44:v2:slices")
+    nat("nip44NonceEnd", int(g1.group(1)), "nostr nip44 v2: payload = version byte, nonce [1..NonceEnd), buffer, MAC")
+    nat("nip44MacLen", int(g3.group(1)), "nostr nip44 v2: length of the trailing HMAC")
+    i_mac, i_idx = body.find("InvalidHmac"), body.find("buffer[0..2]")
+    if i_mac < 0:
+        raise Missing("nostr:nip44:v2:hmac")
+    guarded = bool(re.search(r"buffer\.len\(\)\s*<\s*2\b", body[:i_idx])) if i_idx > 0 else True
+    boolean("nip44LenPrefixGuarded", guarded and True,
+            "nostr nip44 v2 decrypt_to_bytes: the two length bytes are read with `buffer[0..2]` only after a length check (false = an authenticated payload whose buffer is shorter than 2 bytes PANICS)")
+    boolean("nip44ChecksAsModelled",
+            0 < i_mac < body.find("apply_keystream") < body.find("buffer.len() < 2 + unpadded_len") < body.find("unpadded.is_empty()") < body.find("buffer.len() != 2 + calc_padding(unpadded_len)"),
+            "nostr nip44 v2 decrypt_to_bytes: HMAC, keystream, claimed length fits, not empty, padded length exact — in this order")
+    # a guard of mdk's own in front of the nip44 call (none today): `<decoded payload>.len() < N` in util.rs decrypt_with_exporter_secret
+    util = strip_comments(non_test(read("crates/mdk-core/src/util.rs")))
+    dwe = fn_body(util, "decrypt_with_exporter_secret", "fn:decrypt_with_exporter_secret")
+    i_call = dwe.find("nip44::decrypt_to_bytes(")
+    if i_call < 0:
+        raise Missing("util:decrypt_with_exporter_secret:nip44-call")
+    guard = 0
+    gm = re.search(r"\.len\(\)\s*<\s*([A-Z_][A-Z0-9_]*|\d[\d_]*)", dwe[:i_call])
+    if gm:
+        tok = gm.group(1)
+        guard = int(tok.replace("_", "")) if tok[0].isdigit() else const_usize(util, tok, "const:" + tok)
+        if not re.search(r"(BASE64|STANDARD)\s*\.decode\(", dwe[:i_call]):
+            raise Missing("util:decrypt_with_exporter_secret:guard-on-decoded-bytes")
+    nat("mdkMinPayloadLen", guard, "util.rs decrypt_with_exporter_secret: minimum number of base64-DECODED payload bytes required before nostr's nip44 is called (0 = no guard of mdk's own)")
+    cp = fn_body(v2, "calc_padding", "nostr:nip44:v2:calc_padding")
+    boolean("nip44PaddingAsModelled",
+            bool(re.search(r"if\s+len\s*<=\s*32\s*\{\s*return\s+32\s*;\s*\}", cp)) and "1 << (log2_round_down(len - 1) + 1)" in cp
+            and bool(re.search(r"if\s+nextpower\s*<=\s*256\s*\{\s*32\s*\}\s*else\s*\{\s*nextpower\s*/\s*8\s*\}", cp)) and "chunk * (((len - 1) / chunk) + 1)" in cp,
+            "nostr nip44 v2 calc_padding as transcribed in Model.Wrap.calcPadding")
+
 def main():
     facts = {}      # name -> (lean type, lean value, provenance)
     def nat(name, v, prov): facts[name] = ("Nat", str(v), prov)
@@ -514,6 +683,9 @@ def main():
     dgi = fn_body(gi_rs, "decrypt_group_image", "fn:decrypt_group_image")
     i_hash, i_v2, i_v1 = dgi.find("HashVerificationFailed"), dgi.find("IMAGE_ENCRYPTION_CONTEXT_V2"), dgi.find("new_from_slice(image_key.as_ref())")
     boolean("groupImageDecryptAsModelled", 0 < i_hash < i_v2 < i_v1, "group_image.rs decrypt_group_image: blob hash, then the HKDF (v2) key, then the raw (v1) key")
+
+    # ---- outer layer of process_message (C06 wrap / C08 routing; engine `wrap`) ---------------------------
+    wrap_facts(facts, nat, boolean, strlist)
 
     # ---- emit -------------------------------------------------------------------------------
     lines = ["/- GENERATED by tools/gen_model.py from the current /repo source — do not edit. -/",
